@@ -22,6 +22,9 @@ package key
 //@ # ---------------------------------------------------------------- C10: casts keep the blob
 //@ # a certificate object handed in directly (not parsed from a blob) must carry its public key
 //@ ghost func wfKey(key ssh.PublicKey) bool = typeof(key) == *ssh.Certificate ==> (pl(key) != 0 && key.(*ssh.Certificate).Key != nil)
+//@ # what the cast does as a function of the key: castable(k) it yields a certificate; keyIdOfKey(k) the key id of that certificate
+//@ ghost func castable(k ssh.PublicKey) bool = certBlob(blobid(k)) && (typeof(k) == *ssh.Certificate || parseOKid(blobid(k)))
+//@ ghost func keyIdOfKey(k ssh.PublicKey) string = typeof(k) == *ssh.Certificate ? k.(*ssh.Certificate).KeyId : certKeyId(blobid(k))
 //@ func CastSSHPublicKeyToCertificate(key)
 //@   flag logged
 //@   requires key != nil && wfKey(key)
@@ -32,6 +35,7 @@ package key
 //@   ensures !certBlob(blobid(key)) ==> err != nil
 //@   ensures [other-keys-are-reparsed-from-their-blob] typeof(key) != *ssh.Certificate ==> ((err == nil <==> (certBlob(blobid(key)) && parseOKid(blobid(key)))) &&
 //@     (err == nil ==> result0.KeyId == certKeyId(blobid(key))))
+//@   ensures [cast-is-a-function-of-the-key] (err == nil <==> castable(key)) && (err == nil ==> result0.KeyId == keyIdOfKey(key))
 //@   ensures [certificate-objects-are-handed-back] (typeof(key) == *ssh.Certificate && certBlob(blobid(key))) ==> (err == nil && result0 == key.(*ssh.Certificate))
 //@ # blob identity of a *ssh.Certificate (as a PublicKey)
 //@ ghost func certid(c *ssh.Certificate) int = blobid(asKey(c))
